@@ -155,6 +155,7 @@ def check_joint(r, case):
             for c2 in per_agent["b"]:
                 members = [c for c in (c1, c2) if c is not None]
                 if not members:
+                    out.append(((None, None), st))  # both agents idle: a step that changes nothing
                     continue
                 try:
                     if not all(applicable(w.S, w.S.actions[n], a, st, w.objs) for n, a in members):
